@@ -350,6 +350,15 @@ def check_branch(ctx, sut, fpm, element, value, result, case):
                     f"({str(want)[:200]}); it matches branches {others}")
 
 
+def plain_containers(fp):
+    """A result fingerprint with the container CLASS of untyped objects ignored: where a schema lets a value
+    through as it is, a plain dict stays a plain dict and an attribute-access dict stays what it was - both hold
+    the same members."""
+    if isinstance(fp, tuple):
+        return tuple("dict" if item == "anon" and idx == 0 else plain_containers(item) for idx, item in enumerate(fp))
+    return fp
+
+
 def one_schema(ctx, sut, fpm, idx):
     rng = ctx.rng
     if idx % 3 == 0:
@@ -400,6 +409,21 @@ def one_schema(ctx, sut, fpm, idx):
                         "; ".join(walker.problems[:3]), finding=walker.finding)
             continue
         check_branch(ctx, sut, fpm, element, pristine, result, case)
+        if isinstance(pristine, (dict, list)) and ctx.rng.random() < 0.25:
+            # the same JSON value after it has been through a permissive element first (what an untyped element
+            # hands back still is that JSON value, as dict / list subclasses): same result as for the plain value
+            try:
+                relay = sut.Element()(copy.deepcopy(pristine))
+            except Exception:  # pylint: disable=broad-except
+                relay = None
+            if relay is not None:
+                outcome_r, result_r, _ = sut.call(element, relay)
+                ctx.count("relayed_through_untyped_element")
+                if outcome_r != "ok" or plain_containers(fpm.fp_result(result_r)) != plain_containers(fpm.fp_result(result)):
+                    ctx.witness("result_depends_on_how_the_value_was_held", {**case, "value": pristine},
+                                f"the value handed over directly gives {str(fpm.fp_result(result))[:200]}; the same "
+                                f"value as returned by Element() gives {outcome_r} {str(fpm.fp_result(result_r) if outcome_r == 'ok' else '')[:200]}")
+                    continue
         if isinstance(pristine, (dict, list)) and ctx.rng.random() < 0.3:
             scribble_and_repeat(ctx, sut, fpm, element, pristine, result, case)
     ctx.sample({"schema": schema, "values": [v for v in values[:2]]}, every=60)
